@@ -101,6 +101,7 @@ type Case struct {
 	ReqHeaders [][]string `json:"req_headers,omitempty"` // [key, value]
 	BodyHex    string     `json:"req_body_hex"`
 	Chunked    bool       `json:"chunked,omitempty"`  // unknown length
+	Pieces     []int      `json:"pieces,omitempty"`   // the body reaches the middleware in short reads of these sizes (rest in one)
 	LenBody    bool       `json:"len_body,omitempty"` // recorder mode: req.Body has a Len() method
 	Hijacker   bool       `json:"hijacker,omitempty"` // the downstream writer also implements http.Hijacker
 	WithOpts   bool       `json:"with_opts,omitempty"`
@@ -429,6 +430,58 @@ func (lenBody) Close() error { return nil }
 
 type plainReader struct{ io.Reader }
 
+// pieceReader hands the body out in short reads of the chosen sizes; with a pause between the
+// pieces the HTTP client sends each one as a chunk of its own (it flushes after every chunk)
+type pieceReader struct {
+	rest   []byte
+	pieces []int
+	pause  time.Duration
+	begun  bool
+}
+
+func (p *pieceReader) Read(b []byte) (int, error) {
+	if len(p.rest) == 0 {
+		return 0, io.EOF
+	}
+	if p.begun && p.pause > 0 {
+		time.Sleep(p.pause)
+	}
+	p.begun = true
+	n := len(p.rest)
+	if len(p.pieces) > 0 {
+		if p.pieces[0] > 0 && p.pieces[0] < n {
+			n = p.pieces[0]
+		}
+		p.pieces = p.pieces[1:]
+	}
+	if n > len(b) {
+		n = len(b)
+	}
+	copy(b, p.rest[:n])
+	p.rest = p.rest[n:]
+	return n, nil
+}
+
+// requestBody builds the reader the request is sent with, and the Content-Length to declare
+// (-1 = unknown length)
+func requestBody(c *Case, pause time.Duration) (io.Reader, int64) {
+	if c.Method == "GET" {
+		return nil, 0
+	}
+	body := unhex(c.BodyHex)
+	if len(c.Pieces) > 0 {
+		rd := &pieceReader{rest: body, pieces: append([]int{}, c.Pieces...), pause: pause}
+		if c.Chunked {
+			return rd, -1
+		}
+		return rd, int64(len(body))
+	}
+	if c.Chunked {
+		return plainReader{bytes.NewReader(body)}, -1
+	}
+	return bytes.NewReader(body), int64(len(body))
+}
+
 type server struct {
 	srv *httptest.Server
 	mu  sync.Mutex
@@ -465,18 +518,17 @@ type clientResult struct {
 
 func (s *server) do(c *Case, h http.Handler) (*clientResult, error) {
 	s.cur = h
-	body := unhex(c.BodyHex)
-	var rd io.Reader
-	if c.Method != "GET" {
-		if c.Chunked {
-			rd = plainReader{bytes.NewReader(body)}
-		} else {
-			rd = bytes.NewReader(body)
-		}
+	pause := time.Duration(0)
+	if c.Chunked {
+		pause = 2 * time.Millisecond
 	}
+	rd, cl := requestBody(c, pause)
 	req, err := http.NewRequest(c.Method, s.srv.URL+"/c18/path?q=1", rd)
 	if err != nil {
 		return nil, err
+	}
+	if rd != nil && len(c.Pieces) > 0 {
+		req.ContentLength = cl
 	}
 	if c.ReqCT != "" {
 		req.Header.Set("Content-Type", c.ReqCT)
@@ -587,16 +639,12 @@ func exchange(c *Case, s *server, wrapped bool) (*runOut, error) {
 		}
 	} else {
 		body := unhex(c.BodyHex)
-		var rd io.Reader
-		if c.Method != "GET" {
-			if c.Chunked {
-				rd = plainReader{bytes.NewReader(body)}
-			} else {
-				rd = bytes.NewReader(body)
-			}
-		}
+		rd, cl := requestBody(c, 0)
 		req := httptest.NewRequest(c.Method, "http://example.test/c18/path?q=1", rd)
-		if c.LenBody && c.Method != "GET" {
+		if rd != nil && len(c.Pieces) > 0 {
+			req.ContentLength = cl
+		}
+		if c.LenBody && c.Method != "GET" && len(c.Pieces) == 0 {
 			req.Body = lenBody{bytes.NewReader(body)}
 		}
 		if c.ReqCT != "" {
@@ -900,7 +948,12 @@ func Run(cfg vh.Config) (*vh.Result, error) {
 				return nil, err
 			}
 		}
-		n := cfg.Pick(700, 24000)
+		for _, c := range memGridCases(cfg) {
+			if err := runCase(c); err != nil {
+				return nil, err
+			}
+		}
+		n := cfg.Pick(500, 24000)
 		for i := 0; i < n; i++ {
 			c := genCase(rng, cfg, i)
 			if err := runCase(c); err != nil {
@@ -1043,6 +1096,12 @@ func classify(c *Case, d vh.Counter) {
 			}
 			if c.ReqMem > 0 && rb > c.ReqMem {
 				d.Inc("reqbody_spilled_to_file")
+				if len(c.Pieces) > 0 {
+					d.Inc("reqbody_spilled_in_several_pieces")
+				}
+			}
+			if len(c.Pieces) > 0 {
+				d.Inc("reqbody_short_reads")
 			}
 		} else {
 			d.Inc("reqbody_access_off")
